@@ -253,7 +253,7 @@ func parsePath(p string) (parsed, bool) {
 	}
 	base := "/api/" + out.version
 	if segs[0] == "apis" {
-		base = "/apis/" + out.group + "/" + out.version
+		base = "/apis/" + out.group + "/" + storageVersion(out.group, out.version)
 	}
 	if out.ns != "" {
 		base += "/namespaces/" + out.ns
@@ -262,11 +262,59 @@ func parsePath(p string) (parsed, bool) {
 	return out, true
 }
 
+// Groups served under several versions: like a real API server the simulated
+// one keeps ONE object per (group, resource, namespace, name) and serves it
+// under every version of the group; the store key uses the storage version.
+var servedVersions = map[string][]string{
+	"autoscaling": {"v1", "v2"},
+}
+
+// StorePath maps an object's request path to its store key.
+func StorePath(path string) string {
+	p, ok := parsePath(path)
+	if !ok || p.name == "" {
+		return path
+	}
+	return p.prefix + "/" + p.name
+}
+
+// MultiVersion reports whether the group is served under several versions.
+func MultiVersion(group string) bool { _, ok := servedVersions[group]; return ok }
+
+func storageVersion(group, version string) string {
+	if vs, ok := servedVersions[group]; ok {
+		for _, v := range vs {
+			if v == version {
+				return vs[0]
+			}
+		}
+	}
+	return version
+}
+
+// served rewrites the apiVersion of a stored object to the version the request
+// was addressed to (conversion is the identity on the fields the harness uses).
+func served(b []byte, p parsed) []byte {
+	if _, ok := servedVersions[p.group]; !ok {
+		return b
+	}
+	var m map[string]any
+	if json.Unmarshal(b, &m) != nil {
+		return b
+	}
+	if _, ok := m["apiVersion"]; !ok {
+		return b
+	}
+	m["apiVersion"] = p.group + "/" + p.version
+	out, _ := json.Marshal(m)
+	return out
+}
+
 // ObjPath builds the store key of an object.
 func ObjPath(group, version, ns, resource, name string) string {
 	base := "/api/" + version
 	if group != "" {
-		base = "/apis/" + group + "/" + version
+		base = "/apis/" + group + "/" + storageVersion(group, version)
 	}
 	if ns != "" {
 		base += "/namespaces/" + ns
@@ -281,7 +329,7 @@ var kindOf = map[string]string{
 	"roles": "Role", "rolebindings": "RoleBinding", "gadgets": "Gadget", "daemonsets": "DaemonSet", "statefulsets": "StatefulSet",
 	"replicasets": "ReplicaSet", "ingresses": "Ingress", "networkpolicies": "NetworkPolicy", "cronjobs": "CronJob",
 	"limitranges": "LimitRange", "resourcequotas": "ResourceQuota", "endpoints": "Endpoints",
-	"clusterroles": "ClusterRole",
+	"clusterroles": "ClusterRole", "horizontalpodautoscalers": "HorizontalPodAutoscaler",
 }
 
 func status(code int, reason, msg string) []byte {
@@ -383,7 +431,7 @@ func (s *Sim) handle(req *http.Request, p parsed, name string, body []byte) (int
 	case "GET":
 		if p.name != "" {
 			if b, ok := s.Objs[key]; ok {
-				return 200, b, false
+				return 200, served(b, p), false
 			}
 			return 404, status(404, "NotFound", fmt.Sprintf("%s %q not found", p.resource, p.name)), false
 		}
@@ -420,7 +468,7 @@ func (s *Sim) handle(req *http.Request, p parsed, name string, body []byte) (int
 			if fieldName != "" && m.Metadata.Name != fieldName {
 				continue
 			}
-			items = append(items, s.Objs[k])
+			items = append(items, served(s.Objs[k], p))
 		}
 		kind := kindOf[p.resource]
 		if kind == "" {
@@ -443,18 +491,19 @@ func (s *Sim) handle(req *http.Request, p parsed, name string, body []byte) (int
 			return 409, status(409, "AlreadyExists", fmt.Sprintf("%s %q already exists", p.resource, name)), false
 		}
 		s.Objs[key] = normalise(body, p.ns)
-		return 201, s.Objs[key], true
+		return 201, served(s.Objs[key], p), true
 	case "PUT":
 		if _, ok := s.Objs[key]; !ok {
 			return 404, status(404, "NotFound", fmt.Sprintf("%s %q not found", p.resource, p.name)), false
 		}
 		s.Objs[key] = normalise(body, p.ns)
-		return 200, s.Objs[key], true
+		return 200, served(s.Objs[key], p), true
 	case "PATCH":
 		cur, ok := s.Objs[key]
 		if !ok {
 			return 404, status(404, "NotFound", fmt.Sprintf("%s %q not found", p.resource, p.name)), false
 		}
+		cur = served(cur, p)
 		ct := req.Header.Get("Content-Type")
 		var patched []byte
 		var err error
@@ -475,7 +524,7 @@ func (s *Sim) handle(req *http.Request, p parsed, name string, body []byte) (int
 			return 422, status(422, "Invalid", err.Error()), false
 		}
 		s.Objs[key] = normalise(patched, p.ns)
-		return 200, s.Objs[key], true
+		return 200, served(s.Objs[key], p), true
 	case "DELETE":
 		if p.name == "" {
 			return 405, status(405, "MethodNotAllowed", "collection delete not supported"), false
